@@ -710,6 +710,12 @@ func genGlobals(repo string) (string, error) {
 				if b, ok := cc.Value.(*ssa.Builtin); ok && (b.Name() == "len" || b.Name() == "cap") {
 					isLen = true
 				}
+				if cc.IsInvoke() {
+					// a method called on an interface value held in a global (e.g. a package-level hash.Hash)
+					if g, p, ok := through(cc.Value); ok {
+						emit(ins, ctx, g, p, "ARefUse")
+					}
+				}
 				for _, a := range cc.Args {
 					if g, p, ok := through(a); ok && isRefType(a.Type()) {
 						if isLen {
@@ -804,6 +810,24 @@ func genGlobals(repo string) (string, error) {
 		}
 	}
 
+	// a global that is only initialised once but whose reference (pointer / interface / map / slice / func) is handed
+	// to calls or method calls outside initialisers may be mutated behind the analysis' back: GRefUsed
+	refUsed := map[gkey]bool{}
+	refReach := map[gkey]bool{}
+	for i, r := range rows {
+		if isInitRow[i] || r.kind != "ARefUse" {
+			continue
+		}
+		k := gOf(r.v)
+		if _, isSync := syncGlobals[k]; isSync || mutable[k] {
+			continue
+		}
+		refUsed[k] = true
+		if r.reach {
+			refReach[k] = true
+		}
+	}
+
 	// ---- output
 	var out []gAccess
 	ordCount := map[string]int{}
@@ -828,7 +852,12 @@ func genGlobals(repo string) (string, error) {
 
 	var b strings.Builder
 	b.WriteString("From KV Require Import Glob.GlobalsTypes.\nOpen Scope string_scope.\n\n")
-	b.WriteString("(* package-level variables of the kustomize packages linked into krusty.Run:\n   GMutable = stored to / updated through / address-taken outside package initialisers;\n   GSync = sync.Mutex / RWMutex / Once / WaitGroup; the rest is written by initialisers only. *)\n")
+	b.WriteString("(* package-level variables of the kustomize packages linked into krusty.Run:\n" +
+		"   GMutable = stored to / updated through / address-taken outside package initialisers;\n" +
+		"   GSync = sync.Mutex / RWMutex / Once / WaitGroup;\n" +
+		"   GRefUsed reach = written by initialisers only, but the reference it holds (pointer / interface / map / slice /\n" +
+		"     func) is passed to calls or has methods called on it outside initialisers (reach: in a function reachable from Run);\n" +
+		"   the rest (counted) is written by initialisers only and only read / indexed / ranged. Third field: the Go type. *)\n")
 	var gkeys []gkey
 	for k := range allGlobals {
 		gkeys = append(gkeys, k)
@@ -848,6 +877,8 @@ func genGlobals(repo string) (string, error) {
 			kind = "(GSync " + coqStr(s) + ")"
 		} else if mutable[k] {
 			kind = "GMutable"
+		} else if refUsed[k] {
+			kind = "(GRefUsed " + coqBool(refReach[k]) + ")"
 		} else {
 			nRO++
 			continue // read-only after initialisation: counted, not listed
@@ -856,7 +887,13 @@ func genGlobals(repo string) (string, error) {
 			b.WriteString(";\n")
 		}
 		first = false
-		fmt.Fprintf(&b, "  mkGvar %s %s", coqStr(shortPkg(k.pkg)+"."+k.name), kind)
+		ty := "?"
+		if g := allGlobals[k]; g != nil {
+			if pt, ok := g.Type().(*types.Pointer); ok {
+				ty = types.TypeString(pt.Elem(), func(p *types.Package) string { return shortPkg(p.Path()) })
+			}
+		}
+		fmt.Fprintf(&b, "  mkGvar %s %s %s", coqStr(shortPkg(k.pkg)+"."+k.name), kind, coqStr(ty))
 	}
 	b.WriteString("\n].\n\n")
 	fmt.Fprintf(&b, "Definition gen_readonly_global_count : N := %d%%N.\n\n", nRO)
